@@ -13,16 +13,6 @@ from .recorder import Recorder
 # ----------------------------------------------------------------------------
 # option / drive construction
 # ----------------------------------------------------------------------------
-def decode_terminal_psi(v):
-    if v == "none" or v is None and False:
-        return None
-    if isinstance(v, (list, tuple)):
-        return complex(v[0], v[1])
-    if v == "none":
-        return None
-    return v
-
-
 def build_options(o, output_file=None):
     import tdgl
 
@@ -35,7 +25,9 @@ def build_options(o, output_file=None):
         elif isinstance(tp, (list, tuple)):
             kw["terminal_psi"] = complex(tp[0], tp[1])
     kw["output_file"] = output_file
-    kw.setdefault("progress_interval", 0)
+    # a positive progress interval switches tqdm off (the runner then only logs); the
+    # progress-reporting configurations are varied on purpose in C11
+    kw.setdefault("progress_interval", 10**9)
     return tdgl.SolverOptions(**kw)
 
 
@@ -200,6 +192,12 @@ def run_sim(spec, listeners=(), failpoints=None, device=None, seed_solution=None
         except BaseException as exc:  # noqa: BLE001 (KeyboardInterrupt included on purpose)
             if isinstance(exc, (SystemExit,)):
                 raise
+            if isinstance(exc, RuntimeError) and "exactly singular" in str(exc):
+                # SuperLU refuses the (singular, pure-Neumann) Poisson matrix of this mesh outright:
+                # a refusal at construction, counted as a class, not judged by any property here
+                rr.refused = "refused: Poisson factorisation exactly singular"
+                shutil.rmtree(rr.outdir, ignore_errors=True)
+                return rr
             rr.exception = exc
     rr.rng_state_after = np.random.get_state()[1][:8].tolist()
     rr.output_path = getattr(rr.solution, "path", None) or path
